@@ -50,6 +50,7 @@ type Canary struct {
 	Name   string // file name suffix
 	Src    string
 	Expect []CanaryExpect
+	Spec   bool // not a canary: a reference (specification) source analysed together with the package
 }
 
 // Report accumulates the obligations of one property check.
